@@ -1,6 +1,245 @@
-//! C17: invert the layout to v0.4, run the real upgrades, compare.
-use crate::exec::{Exec, Stop};
+//! C17: the current-layout database is inverted to the v0.4 layout on the raw
+//! bytes (harness-side), loaded into a fresh environment, the real upgrades
+//! are run on it and the result is compared key for key and byte for byte
+//! with the original; the history then continues on the upgraded database.
 
-pub fn do_upgrade(_ex: &mut Exec<'_>, _aborted: bool) -> Result<(), Stop> {
+use heed::types::Bytes;
+use heed::EnvOpenOptions;
+use roaring::RoaringBitmap;
+
+use arroy::distances::Cosine;
+
+use crate::decode::{decode_meta, decode_tree_node, encode_meta, encode_tree_node, key_bytes, Dump, TreeNode, KIND_ITEM, KIND_METADATA, KIND_TREE, KIND_UPDATED};
+use crate::exec::{Exec, RawDb, Stop};
+use crate::metric::Metric;
+use crate::query;
+
+const OLD_ITEM: u8 = 0;
+const OLD_TREE: u8 = 1;
+const OLD_META: u8 = 2;
+
+/// major, minor, patch of the crate under test (what `from_0_5_to_0_6` must stamp)
+fn crate_version() -> (u32, u32, u32) {
+    let toml = include_str!("/repo/Cargo.toml");
+    let line = toml.lines().find(|l| l.trim_start().starts_with("version")).unwrap_or("version = \"0.0.0\"");
+    let v = line.split('"').nth(1).unwrap_or("0.0.0");
+    let mut it = v.split('.').map(|x| x.parse::<u32>().unwrap_or(0));
+    (it.next().unwrap_or(0), it.next().unwrap_or(0), it.next().unwrap_or(0))
+}
+
+fn old_kind(k: u8) -> u8 {
+    match k {
+        KIND_ITEM => OLD_ITEM,
+        KIND_TREE => OLD_TREE,
+        _ => OLD_META,
+    }
+}
+
+/// Invert the 0.4 -> 0.5 layout change on a raw dump. `with_empty_bitmap`: write an empty
+/// pending-updates bitmap for indexes without pending updates (both forms existed).
+pub fn invert_to_0_4(d: &Dump, dim_of: &dyn Fn(u16) -> usize, with_empty_bitmap: bool) -> Result<Dump, String> {
+    let mut out: Dump = Vec::new();
+    let mut updated: std::collections::BTreeMap<u16, RoaringBitmap> = Default::default();
+    let mut indexes: std::collections::BTreeSet<u16> = Default::default();
+    for (k, v) in d {
+        let index = u16::from_be_bytes([k[0], k[1]]);
+        let kind = k[2];
+        let id = u32::from_be_bytes([k[3], k[4], k[5], k[6]]);
+        indexes.insert(index);
+        match kind {
+            KIND_ITEM => out.push((key_bytes(index, OLD_ITEM, id), v.clone())),
+            KIND_TREE => {
+                let node = decode_tree_node(v, Metric::Cosine, dim_of(index))?;
+                let node = match node {
+                    TreeNode::Split { left, right, normal } => TreeNode::Split { left: (old_kind(left.0), left.1), right: (old_kind(right.0), right.1), normal },
+                    b => b,
+                };
+                out.push((key_bytes(index, OLD_TREE, id), encode_tree_node(&node)));
+            }
+            KIND_METADATA if id == 0 => {
+                let mut m = decode_meta(v)?;
+                m.name = "angular".into();
+                out.push((key_bytes(index, OLD_META, 0), encode_meta(&m)));
+            }
+            KIND_METADATA => {} // version records did not exist
+            KIND_UPDATED => {
+                updated.entry(index).or_default().insert(id);
+            }
+            _ => return Err(format!("unknown kind {kind}")),
+        }
+    }
+    for index in indexes {
+        let bm = updated.remove(&index).unwrap_or_default();
+        if !bm.is_empty() || with_empty_bitmap {
+            let mut bytes = Vec::new();
+            bm.serialize_into(&mut bytes).unwrap();
+            out.push((key_bytes(index, OLD_META, 1), bytes));
+        }
+    }
+    out.sort();
+    Ok(out)
+}
+
+fn raw_dump(env: &heed::Env<heed::WithoutTls>, db: RawDb) -> Dump {
+    let rtxn = env.read_txn().unwrap();
+    crate::snapshot::dump_txn(&rtxn, db)
+}
+
+fn first_diff(a: &Dump, b: &Dump) -> String {
+    let am: std::collections::BTreeMap<&Vec<u8>, &Vec<u8>> = a.iter().map(|(k, v)| (k, v)).collect();
+    let bm: std::collections::BTreeMap<&Vec<u8>, &Vec<u8>> = b.iter().map(|(k, v)| (k, v)).collect();
+    for (k, v) in &am {
+        match bm.get(k) {
+            None => return format!("key {} missing after the upgrade", crate::util::hex(k)),
+            Some(w) if w != v => return format!("value of key {} differs: expected {} got {}", crate::util::hex(k), crate::util::hex(&v[..v.len().min(40)]), crate::util::hex(&w[..w.len().min(40)])),
+            _ => {}
+        }
+    }
+    for k in bm.keys() {
+        if !am.contains_key(k) {
+            return format!("unexpected key {} after the upgrade", crate::util::hex(k));
+        }
+    }
+    "identical".into()
+}
+
+pub fn do_upgrade(ex: &mut Exec<'_>, aborted: bool) -> Result<(), Stop> {
+    if ex.world.indexes.iter().any(|m| m.metric != Metric::Cosine) {
+        return Ok(());
+    }
+    if ex.has_txn() {
+        ex.do_commit()?;
+    }
+    let d0 = ex.committed_dump.clone();
+    let world = ex.world.clone();
+    let dim_of = |i: u16| world.metric_of(i).map_or(0, |x| x.1);
+    let with_empty = ex.step_no % 2 == 0;
+    let old = match invert_to_0_4(&d0, &dim_of, with_empty) {
+        Ok(o) => o,
+        Err(e) => {
+            ex.report(&["C16"], "reference_decoder", format!("cannot invert the layout: {e}"))?;
+            return Err(Stop::Unevaluable("inversion failed".into()));
+        }
+    };
+    let pending: std::collections::BTreeSet<u16> = d0.iter().filter(|(k, _)| k[2] == KIND_UPDATED).map(|(k, _)| u16::from_be_bytes([k[0], k[1]])).collect();
+    ex.out.stats.probe(if pending.is_empty() { "upgrade_without_pending_updates" } else { "upgrade_with_pending_updates" });
+    // a fresh environment holding the v0.4 database
+    let dir = ex.dir.parent().unwrap().join("upg");
+    let _ = std::fs::remove_dir_all(&dir);
+    std::fs::create_dir_all(&dir).unwrap();
+    let env = unsafe { EnvOpenOptions::new().read_txn_without_tls().map_size(ex.plan.cfg.map_size).max_readers(16).open(&dir) }.map_err(|e| Stop::Unevaluable(format!("open upg env: {e}")))?;
+    let db: RawDb = {
+        let mut wtxn = env.write_txn().unwrap();
+        let db: RawDb = env.create_database::<Bytes, Bytes>(&mut wtxn, None).unwrap();
+        for (k, v) in &old {
+            db.put(&mut wtxn, k, v).unwrap();
+        }
+        wtxn.commit().unwrap();
+        db
+    };
+    let cdb = query::typed::<Cosine>(db);
+    let run_04 = |commit: bool| -> Result<(), String> {
+        let rtxn = env.read_txn().map_err(|e| e.to_string())?;
+        let mut wtxn = env.write_txn().map_err(|e| e.to_string())?;
+        let r = std::panic::catch_unwind(std::panic::AssertUnwindSafe(|| arroy::upgrade::cosine_from_0_4_to_0_5(&rtxn, cdb, &mut wtxn, cdb)));
+        match r {
+            Ok(Ok(())) => {}
+            Ok(Err(e)) => return Err(format!("cosine_from_0_4_to_0_5 failed: {e}")),
+            Err(_) => return Err("cosine_from_0_4_to_0_5 panicked".into()),
+        }
+        drop(rtxn);
+        if commit {
+            wtxn.commit().map_err(|e| e.to_string())?;
+        } else {
+            wtxn.abort();
+        }
+        Ok(())
+    };
+    if aborted {
+        if let Err(e) = run_04(false) {
+            ex.report(&["C17"], "upgrade_failed", e)?;
+            return Err(Stop::Unevaluable("upgrade failed".into()));
+        }
+        let after = raw_dump(&env, db);
+        if after != old {
+            ex.report(&["C17", "C08"], "aborted_upgrade_left_trace", format!("an aborted upgrade changed the source database: {}", first_diff(&old, &after)))?;
+        }
+        ex.out.stats.probe("upgrade_aborted_then_redone");
+    }
+    if let Err(e) = run_04(true) {
+        ex.report(&["C17"], "upgrade_failed", e)?;
+        return Err(Stop::Unevaluable("upgrade failed".into()));
+    }
+    // expected: the original minus version records
+    let expect_05: Dump = d0.iter().filter(|(k, _)| !(k[2] == KIND_METADATA && k[3..7] == [0, 0, 0, 1])).cloned().collect();
+    let got_05 = raw_dump(&env, db);
+    if got_05 != expect_05 {
+        ex.report(&["C17"], "upgrade_0_4_to_0_5_differs", format!("the upgraded database differs from what the current layout prescribes: {}", first_diff(&expect_05, &got_05)))?;
+        env.prepare_for_closing().wait();
+        return Err(Stop::Unevaluable("upgrade differs".into()));
+    }
+    // 0.5 -> 0.6: a version record on exactly the indexes that have metadata
+    {
+        let rtxn = env.read_txn().unwrap();
+        let mut wtxn = env.write_txn().unwrap();
+        let r = std::panic::catch_unwind(std::panic::AssertUnwindSafe(|| arroy::upgrade::from_0_5_to_0_6::<Cosine>(&rtxn, cdb, &mut wtxn, cdb)));
+        drop(rtxn);
+        match r {
+            Ok(Ok(())) => wtxn.commit().unwrap(),
+            Ok(Err(e)) => {
+                ex.report(&["C17"], "upgrade_failed", format!("from_0_5_to_0_6 failed: {e}"))?;
+                return Err(Stop::Unevaluable("upgrade failed".into()));
+            }
+            Err(_) => {
+                ex.report(&["C17"], "upgrade_failed", "from_0_5_to_0_6 panicked".into())?;
+                return Err(Stop::Unevaluable("upgrade failed".into()));
+            }
+        }
+    }
+    let (ma, mi, pa) = crate_version();
+    let mut version = Vec::new();
+    for x in [ma, mi, pa] {
+        version.extend_from_slice(&x.to_be_bytes());
+    }
+    let mut expect_06 = expect_05.clone();
+    for (k, _) in &expect_05 {
+        if k[2] == KIND_METADATA && k[3..7] == [0, 0, 0, 0] {
+            let index = u16::from_be_bytes([k[0], k[1]]);
+            expect_06.push((key_bytes(index, KIND_METADATA, 1), version.clone()));
+        }
+    }
+    expect_06.sort();
+    let got_06 = raw_dump(&env, db);
+    if got_06 != expect_06 {
+        ex.report(&["C17"], "upgrade_0_5_to_0_6_differs", format!("after from_0_5_to_0_6: {}", first_diff(&expect_06, &got_06)))?;
+        env.prepare_for_closing().wait();
+        return Err(Stop::Unevaluable("upgrade differs".into()));
+    }
+    env.prepare_for_closing().wait();
+    // continue the history on the upgraded database: it replaces the run's environment
+    ex.close_env();
+    std::fs::copy(dir.join("data.mdb"), ex.dir.join("data.mdb")).map_err(|e| Stop::Unevaluable(format!("copy: {e}")))?;
+    let _ = std::fs::remove_file(ex.dir.join("lock.mdb"));
+    ex.open_env();
+    let _ = std::fs::remove_dir_all(&dir);
+    let now = ex.dump_current();
+    if now != expect_06 {
+        return Err(Stop::Unevaluable("the upgraded environment does not reopen identically".into()));
+    }
+    ex.committed_dump = now.clone();
+    ex.mark_after_upgrade();
+    ex.out.stats.state_hashes.push(crate::decode::dump_hash(&now));
+    // opens (or demands a build iff updates were pending), C01, queries
+    let dec = match crate::decode::decode_dump(&now, &|i| world.metric_of(i)) {
+        Ok(d) => d,
+        Err(e) => {
+            ex.report(&["C17", "C16"], "upgraded_does_not_decode", e)?;
+            return Err(Stop::Unevaluable("undecodable".into()));
+        }
+    };
+    for ix in 0..ex.world.indexes.len() {
+        ex.check_staleness_pub(ix, &["C17"])?;
+        ex.structural_and_queries(ix, &now, &dec, false)?;
+    }
     Ok(())
 }
